@@ -6,6 +6,7 @@ pub mod c04;
 pub mod c05;
 pub mod c06;
 pub mod c07;
+pub mod c08;
 pub mod c09;
 pub mod c10;
 pub mod c11;
@@ -27,6 +28,7 @@ pub fn run(id: &str, eng: &mut Engine) -> bool {
         "C05" => c05::run(eng),
         "C06" => c06::run(eng),
         "C07" => c07::run(eng),
+        "C08" => c08::run(eng),
         "C09" => c09::run(eng),
         "C10" => c10::run(eng),
         "C11" => c11::run(eng),
